@@ -35,7 +35,7 @@
 (* classification only - it never changes a prediction.                     *)
 EXTENDS JsonSchema, Json
 CONSTANTS PlanName, Ds, KnownDeviations
-VARIABLES d, s, pc
+VARIABLES d, s, pc, sh
 
 A == <<97>>  B == <<98>>  C == <<99>>  D == <<100>>  X == <<120>>
 I(n) == JInt(n)
@@ -150,7 +150,7 @@ Appl(dd, lvl) ==
   \cup { <<"items", x>> : x \in fs }
   \cup (IF r <= 8 THEN { <<"items", Ar(<<x>>)>> : x \in f2 } \cup { <<"additionalItems", x>> : x \in f2 \cup {F} }
                        \cup (IF mid THEN { <<"items", Ar(<<x, y>>)>> : x \in f2, y \in f2 } ELSE {})
-                       \cup (IF full THEN { <<"items", EmptyArr>>, <<"additionalItems", T>> } ELSE {})
+                       \cup (IF full THEN { <<"additionalItems", T>> } ELSE {})
         ELSE { <<"prefixItems", Ar(<<x>>)>> : x \in f2 }
              \cup (IF mid THEN { <<"prefixItems", Ar(<<x, y>>)>> : x \in f2, y \in f2 } ELSE {}))
   \cup (IF r >= 6 THEN { <<"contains", x>> : x \in fs } \cup (IF mid THEN { <<"propertyNames", x>> : x \in fs \cup {K1("maxLength", I(1)), K1("const", JStr(A))} } ELSE {}) ELSE {})
@@ -283,19 +283,26 @@ Plan ==
     [] PlanName = "uneval2" -> <<Ad("annot"), Ad("annot"), Ne("inplace"), Ad("uneval")>>
     [] PlanName = "refs" -> <<Ad("refsmid"), Ad("refs"), Ad("refs")>>
 
-Init == d = "" /\ s = <<"hdr">> /\ pc = 0
+(* sh spreads the first step over NSpread seeds per dialect so that all TLC  *)
+(* workers are busy from the start (cases are evaluated by the worker that   *)
+(* generates them); it is 0 afterwards.                                      *)
+NSpread == 4
+Init == d = "" /\ s = <<"hdr">> /\ pc = 0 /\ sh = 0
 Next ==
-  IF pc = 0 THEN /\ PlanName # "base" /\ d' \in Ds /\ s' = EmptyObj /\ pc' = 1
-  ELSE /\ pc <= Len(Plan) /\ pc' = pc + 1 /\ d' = d
+  IF pc = 0 THEN /\ PlanName # "base" /\ d' \in Ds /\ s' = EmptyObj /\ pc' = 1 /\ sh' \in 1..NSpread
+  ELSE /\ pc <= Len(Plan) /\ pc' = pc + 1 /\ d' = d /\ sh' = 0
        /\ LET st == Plan[pc] IN
           IF st[1] = "add"
           THEN /\ s[1] = "obj"
-               /\ \E kv \in Alpha(d, st[2]) :
-                    /\ S(kv[1]) \notin DOMAIN s[2]
-                    /\ s' = JObj(Put(s[2], S(kv[1]), kv[2]))
-               /\ RefsResolve(d, s')
-          ELSE /\ \E w \in Wraps(d, Strip(s), st[2]) : s' = Hoist(s, w)
-               /\ RefsResolve(d, s')
+               /\ LET al == SetToSeq(Alpha(d, st[2])) IN
+                  \E j \in 1..Len(al) :
+                    /\ sh # 0 => (j % NSpread) = sh - 1
+                    /\ S(al[j][1]) \notin DOMAIN s[2]
+                    /\ s' = JObj(Put(s[2], S(al[j][1]), al[j][2]))
+          ELSE LET ws == SetToSeq(Wraps(d, Strip(s), st[2])) IN
+               \E j \in 1..Len(ws) : (sh # 0 => (j % NSpread) = sh - 1) /\ s' = Hoist(s, ws[j])
+(* Emitted: schemas valid under the meta-schema whose references resolve.    *)
+WF == Coherent(d, s) /\ RefsResolve(d, s)
 
 -----------------------------------------------------------------------------
 (* Steered instances.                                                       *)
@@ -357,14 +364,14 @@ Case == LET xs == Steered IN
    x |-> [j \in 1..Len(xs) |-> <<Wire(xs[j]), Code(Valid(d, s, xs[j]))>>]]
 Emit == IF pc = 0 THEN (PlanName = "base" => PrintT(ToJson(BaseCase)))
         ELSE IF pc = 1 THEN TRUE
-        ELSE PrintT(ToJson(Case))
+        ELSE (WF => PrintT(ToJson(Case)))
 
 (* Model-internal obligations.                                              *)
 Same(x, y) == x = y \/ x = "loop" \/ y = "loop"
 Vd(x, v) == Ev(d, s, x, v, {}).st
 RefFree(x) == \A y \in Subs(d, x) : y[1] = "obj" => S("$ref") \notin DOMAIN y[2]
 Identities ==
-  pc >= 2 =>
+  (pc >= 2 /\ WF) =>
     \A j \in 1..Len(BaseSeq) :
       LET v == BaseSeq[j]
           b == Vd(s, v)
